@@ -64,7 +64,9 @@ def _preamble(kind, cmt, header):
             + "\n\n\n" + header)
 
 
-def write_nwchem(basis, preamble="header", sep="comment", end=True, lower_letters=False):
+def write_nwchem(basis, preamble="header", sep="comment", end=True, lower_letters=False, interior="none"):
+    """interior: 'none' | 'comment' | 'blank' - a comment / blank line after the shell header and between the
+    primitive rows of a shell (NWChem input allows '#' comments and blank lines anywhere)."""
     out = [_preamble(preamble, "#", 'BASIS "ao basis" PRINT\n')]
     for n, (elem, shells) in enumerate(basis):
         if sep == "comment" and (n > 0 or preamble in ("header", "many")):
@@ -74,7 +76,9 @@ def write_nwchem(basis, preamble="header", sep="comment", end=True, lower_letter
         for letters, exps, rows in shells:
             lt = letters.lower() if lower_letters else letters
             out.append("%s    %s\n" % (elem, lt))
-            for e, r in zip(exps, rows):
+            for k, (e, r) in enumerate(zip(exps, rows)):
+                if interior != "none" and k in (0, 1):
+                    out.append("# interior comment\n" if interior == "comment" else "\n")
                 out.append("      " + e + "".join("      " + c for c in r) + "\n")
     if end:
         out.append("END\n")
